@@ -97,6 +97,19 @@ def decide_events(g1, g2, n, rng, full):
                         "out": {"err": type(ex).__name__, "yes": False}})
     if yes:
         inputs = [("lc_check:graph", lambda: (g1.copy(), g2.copy()))]
+        if n >= 3:
+            # the same pair as graphs whose nodes were INSERTED in another order than their labels (qubit k = k-th inserted
+            # node is the library's convention, so in the position view these are exactly g1 and g2)
+            order = list(range(n))
+            while order == list(range(n)):
+                rng.shuffle(order)
+
+            def shuffled(g, order=order):
+                h = nx.Graph()
+                h.add_nodes_from(order)
+                h.add_edges_from((order[a], order[b]) for a, b in g.edges())
+                return h
+            inputs.append(("lc_check:graph-shuffled-insertion", lambda: (shuffled(g1), shuffled(g2))))
         if full:
             inputs += [("lc_check:adjacency", lambda: (a1.copy(), a2.copy())),
                        ("lc_check:tableau", lambda: (get_clifford_tableau_from_graph(g1), get_clifford_tableau_from_graph(g2)))]
